@@ -430,6 +430,21 @@ def run(tier):
             cases += ctl_cases(base, 3, [(0, 3, 0)])
     phase('ctl', cases, [(0, 0)] * len(cases), 'c15c', absorber=absorb_ctl, always=len(cases))
 
+    # ------------------------------------------------------------------ 4b. deprecated (v1) requests RATEMANAGE_SET / _AVG / _HARD, one struct member at a time at a boundary value
+    # (executor table ops_v1), issued between setup_* and setup_init; every set-up that setup_init accepts goes through the encode stage (0.75 s of audio for managed set-ups)
+    V1 = {'cases': 0, 'encoded': 0, 'init_ok': 0}
+    v1_bases = (1, 8) if tier == 'quick' else (1, 8, 0, 3, 9)
+
+    def absorb_v1(cases, results, plns):
+        absorb('ctl', cases, results, plns)
+        for r in results:
+            if r is not None:
+                V1['cases'] += r['n']
+                V1['encoded'] += sum(v for k, v in r['enc'].items() if k.endswith('/packets'))
+                V1['init_ok'] += sum(v for k, v in r['cls'].items() if '|I0|' in k)
+
+    v1_cases = ['C %d 0 1 0 1 1 %d' % (b, A + i) for b in v1_bases for i in range(len(T['ops_v1']))]
+    phase('ctl_v1', v1_cases, [(2, 1100)] * len(v1_cases), 'c15v', absorber=absorb_v1, always=len(v1_cases), step=len(v1_cases))
     # ------------------------------------------------------------------ 5. encode once from every distinct final state (histories of <= 2 requests)
     encoded = set()
     states_encoded = 0
@@ -597,6 +612,9 @@ def run(tier):
             'encodes_with_lowpass/Nyquist_in_(0.98,1)_by_subfamily_and_template': {'%s/%s' % k: v for k, v in sorted(G['near'].items())},
             'geometry_samples': [[g, c] for g, c in sorted(G['geo'].items())[::max(1, len(G['geo']) // 6)]][:6],
         },
+        'deprecated_request_boundaries': dict(V1, bases=[bases[b] for b in v1_bases], requests=len(T['ops_v1']),
+                                              what='OV_ECTL_RATEMANAGE_SET/_AVG/_HARD with the typical struct and one member at a boundary: longs {-1,0,1,LONG_MAX}, doubles {-1e300,-2,-0.001,0,1e-300,1e300,NaN,+-inf}; '
+                                                   'setup_* + request + setup_init + encode stage'),
         'submission_axis': {'templates(managed ch rate q|nominal)': SUB_TEMPLATES, 'total_samples': SUB_TOTALS, 'pieces': 'whole signal in one vorbis_analysis_buffer/_wrote call; 1024- and 64-sample pieces, all submitted and the stream closed before the first vorbis_analysis_blockout',
                             'cases': len(sub_cases)},
         'scaling_family': SC.coverage(tier, T, len(sc_cases), sc_done),
@@ -662,6 +680,8 @@ def run(tier):
         chk.guard(all(G['modes'].get(m, 0) >= 100 for m in ('vbr/lowpass_set', 'managed/lowpass_set', 'vbr/coupling_off/lowpass_set', 'managed/coupling_off/lowpass_set')),
                   'geometry: the lowpass sweep encoded >= 100 cases in each of VBR / managed x {as set up, OV_ECTL_COUPLING_SET 0 requested} (%s)' % G['modes'])
         chk.guard(len(order) >= 20 and states_encoded >= 20, 'at least 20 distinct post-ctl set-up states were encoded from')
+        chk.guard(V1['cases'] == len(v1_cases) and V1['init_ok'] >= V1['cases'] * 9 // 10 and V1['encoded'] >= V1['init_ok'] * 9 // 10,
+                  'deprecated requests: every boundary variant was issued, >= 90%% of the set-ups were accepted by setup_init and >= 90%% of those encoded with packets (%s)' % V1)
         sub_ok = {tot: sum(v for (p_, c_, k), v in enc_by.items() if p_ == 'submit' and k == 'pl2/ns%d/packets' % tot) for tot in SUB_TOTALS}
         chk.guard(all(v == 3 * len(SUB_TEMPLATES) for v in sub_ok.values()), 'submission axis: every template x total x {one piece, 1024-sample pieces, 64-sample pieces all submitted before the first blockout} was encoded with packets (%s)' % sub_ok)
         vbr_stage2 = sum(v for (p_, k), v in cls_all.items() if p_ == 'vbr' and re.match(r'^V:init_vbr:-\d+:probe_setup_vbr:0:probe_setup_init:-\d+:', k))
